@@ -2,26 +2,41 @@
  *
  * rfc1055.c reaches its data through Source / Sink, i.e. through the function
  * pointers of include/ufw/endpoints.h.  These stubs are the contract of that
- * dependency (DESIGN section 3):
+ * dependency (DESIGN section 3).  A driver call moves one octet (a chunk sink:
+ * any 1 <= m <= min(n, 2) of the offered octets) and returns the count, or
+ * returns any negative value instead (error injection at every position).
  *
- *   source   an octet stream held in a ghost array: g_sl_src[0 .. g_sl_src_len),
- *            next position g_sl_src_pos.  A driver call delivers the next
- *            octet and returns 1, or returns any negative value instead
- *            (error injection at every position); at the end of the stream it
- *            returns a negative value (-ENODATA unless another one is
- *            injected).  The array is needed (instead of the single ghost
- *            octet of the C17 stubs) because what the decoder does depends on
- *            every octet it reads.
+ *   source, array mode (g_gn_on == 0): an arbitrary octet stream held in a
+ *            ghost array g_sl_src[0 .. g_sl_src_len); at its end the driver
+ *            returns a negative value (-ENODATA unless another is injected).
+ *   source, generator mode (g_gn_on == 1): the stream is the *reference
+ *            encoding* (spec/slip.h, RFC 1055) of the payload
+ *            g_gn_pay[0 .. g_gn_n), produced octet by octet:
+ *              [g_gn_g octets != END, END]  if g_gn_skip  (garbage up to the next delimiter)
+ *              [END]                        if g_gn_start (start-of-frame delimiter)
+ *              esc(pay[0]) .. esc(pay[n-1]) END
+ *            and then the stream is at its end (-ENODATA).  Cursor:
+ *            g_gn_c preamble octets delivered, payload index g_gn_i,
+ *            position g_gn_s inside the image, g_gn_done after the closing END.
+ *   both     g_sl_src_pos counts the octets delivered, g_sl_src_last is the
+ *            last one delivered.
  *   sink     ghost position g_sl_snk_pos; the one observed absolute position
  *            g_sl_obs (arbitrary, never assigned) and the octet the driver
  *            received there, g_sl_snk_val ("ghost value instead of ghost
- *            array").  A driver call accepts any 1 <= m <= n of the offered
- *            octets, or returns any negative value.  -EINTR / -EAGAIN (which
- *            sink_put_chunk retries) are returned at most g_sl_snk_budget
- *            more times, so that the retry loop of the real sink_put_chunk
- *            can be unwound completely for the two-octet escape sequences.
- *   both     g_sl_*_err  last negative value the driver returned,
+ *            array").
+ *   sink acceptor (g_ac_on == 1): every octet the driver receives is checked
+ *            against the reference encoding of g_ac_pay[0 .. g_ac_n):
+ *            [END if g_ac_sof] esc(pay[0]) esc(pay[1]) ... and an END at an
+ *            image boundary closes the frame (g_ac_closed; g_ac_i payload
+ *            octets complete).  g_ac_bad is set, for good, by the first octet
+ *            that is not the next octet of that encoding, or that follows the
+ *            closing END.
+ *   failures g_sl_*_err  last negative value the driver returned,
  *            g_sl_*_nneg number of negative values the driver returned.
+ *            -EINTR / -EAGAIN (which sink_put_chunk retries) are returned by
+ *            the sink at most g_sl_snk_budget more times, so that the retry
+ *            loop of the real sink_put_chunk can be unwound completely for
+ *            the two-octet escape sequences.
  *
  * Not modelled: a driver call that returns 0 ("nothing happened").  The
  * single-octet API (source_get_octet / sink_put_octet) that rfc1055.c uses
@@ -34,17 +49,32 @@
 #define STUBS_RFC1055_IO_H
 #include <errno.h>
 #include <limits.h>
+#include "spec/slip.h"
 
+/* source */
 const unsigned char *g_sl_src;
 size_t g_sl_src_len, g_sl_src_pos, g_sl_src_nneg;
 int g_sl_src_err;
+unsigned char g_sl_src_last;
+/* source generator */
+_Bool g_gn_on, g_gn_skip, g_gn_start, g_gn_done;
+const unsigned char *g_gn_pay;
+size_t g_gn_n, g_gn_g, g_gn_c, g_gn_i, g_gn_s;
+/* sink */
 size_t g_sl_snk_pos, g_sl_obs, g_sl_snk_nneg, g_sl_snk_budget;
 unsigned char g_sl_snk_val;
 int g_sl_snk_err;
+/* sink acceptor */
+_Bool g_ac_on, g_ac_sof, g_ac_closed, g_ac_bad;
+const unsigned char *g_ac_pay;
+size_t g_ac_n, g_ac_i, g_ac_s;
 
 #define SL_SRC_DRIVER ((void *)&g_sl_src_pos)
 #define SL_SNK_DRIVER ((void *)&g_sl_snk_pos)
 #define SL_TRANSIENT(rc) ((rc) == -EINTR || (rc) == -EAGAIN)
+/* number of octets in front of the encoded payload in generator mode */
+#define SL_GN_SKIPLEN (g_gn_skip ? g_gn_g + 1 : (size_t)0)
+#define SL_GN_PRE (SL_GN_SKIPLEN + (g_gn_start ? (size_t)1 : (size_t)0))
 
 #if VERIF_IS_NATIVE
 #define SL_CLAMP_NEG(rc) do { if ((rc) < -4096) (rc) = -(1 + (int)((unsigned)(-((rc) + 1)) % 4096u)); } while (0)
@@ -53,16 +83,37 @@ int g_sl_snk_err;
 #endif
 
 /* ---- source side ---- */
-static int sl_source_step(void *data, int choice)
+static int sl_source_step(void *data, int choice, unsigned char any)
 {
-  if (choice < 0 || g_sl_src_pos >= g_sl_src_len) {
+  unsigned char c;
+  if (choice < 0 || (g_gn_on ? g_gn_done : g_sl_src_pos >= g_sl_src_len)) {
     const int rc = choice < 0 ? choice : -ENODATA;
     g_sl_src_err = rc;
     ASSUME(g_sl_src_nneg < SIZE_MAX); /* fewer than 2^64 failures */
     g_sl_src_nneg++;
     return rc;
   }
-  *(unsigned char *)data = g_sl_src[g_sl_src_pos];
+  if (!g_gn_on) {
+    c = g_sl_src[g_sl_src_pos];
+  } else if (g_gn_c < SL_GN_PRE) {
+    /* garbage (any octet but the delimiter), its delimiter, the start delimiter */
+    c = (g_gn_skip && g_gn_c < g_gn_g) ? (any == SLIP_END ? 0x00u : any) : SLIP_END;
+    g_gn_c++;
+  } else if (g_gn_i < g_gn_n) {
+    c = SLIP_IMG(g_gn_pay[g_gn_i], g_gn_s);
+    if (g_gn_s + 1 < SLIP_ESCLEN(g_gn_pay[g_gn_i])) {
+      g_gn_s++;
+    } else {
+      g_gn_s = 0;
+      g_gn_i++;
+    }
+  } else {
+    c = SLIP_END;
+    g_gn_done = 1;
+  }
+  *(unsigned char *)data = c;
+  g_sl_src_last = c;
+  ASSUME(g_sl_src_pos < SIZE_MAX); /* a stream is shorter than 2^64 octets */
   g_sl_src_pos++;
   return 1;
 }
@@ -70,20 +121,22 @@ static int sl_source_step(void *data, int choice)
 int sl_octet_source(void *driver, void *data)
 {
   IN(int, st_sl_src_rc)
+  IN(uint8_t, st_sl_src_any)
   SL_CLAMP_NEG(st_sl_src_rc);
   CHECK(driver == SL_SRC_DRIVER, "source driver receives its own driver cookie");
   CHECK(__CPROVER_w_ok(data, 1), "source driver is handed a writable octet");
-  return sl_source_step(data, st_sl_src_rc);
+  return sl_source_step(data, st_sl_src_rc, st_sl_src_any);
 }
 
 ssize_t sl_chunk_source(void *driver, void *buf, size_t n)
 {
   IN(int, st_sl_src_rc)
+  IN(uint8_t, st_sl_src_any)
   SL_CLAMP_NEG(st_sl_src_rc);
   CHECK(driver == SL_SRC_DRIVER, "source driver receives its own driver cookie");
   CHECK(n >= 1 && __CPROVER_w_ok(buf, n), "source driver is handed a buffer writable for the n octets announced");
   /* a chunk driver may deliver fewer octets than asked: this one delivers one */
-  return (ssize_t)sl_source_step(buf, st_sl_src_rc);
+  return (ssize_t)sl_source_step(buf, st_sl_src_rc, st_sl_src_any);
 }
 
 /* ---- sink side ---- */
@@ -102,6 +155,32 @@ static int sl_sink_fail(int rc)
   return rc;
 }
 
+/* the sink driver received octet c as its next octet */
+static void sl_sink_take(unsigned char c)
+{
+  if (g_sl_obs == g_sl_snk_pos)
+    g_sl_snk_val = c;
+  ASSUME(g_sl_snk_pos < SIZE_MAX); /* a stream is shorter than 2^64 octets */
+  g_sl_snk_pos++;
+  if (g_ac_on && !g_ac_bad) {
+    if (g_ac_closed) {
+      g_ac_bad = 1;
+    } else if (g_ac_sof) {
+      if (c == SLIP_END) g_ac_sof = 0; else g_ac_bad = 1;
+    } else if (g_ac_s == 0) {
+      if (c == SLIP_END) {
+        g_ac_closed = 1;
+      } else if (g_ac_i < g_ac_n && c == SLIP_IMG(g_ac_pay[g_ac_i], 0)) {
+        if (SLIP_ESCLEN(g_ac_pay[g_ac_i]) == 2) g_ac_s = 1; else g_ac_i++;
+      } else {
+        g_ac_bad = 1;
+      }
+    } else {
+      if (c == SLIP_IMG(g_ac_pay[g_ac_i], 1)) { g_ac_s = 0; g_ac_i++; } else g_ac_bad = 1;
+    }
+  }
+}
+
 int sl_octet_sink(void *driver, unsigned char c)
 {
   IN(int, st_sl_snk_rc)
@@ -109,37 +188,27 @@ int sl_octet_sink(void *driver, unsigned char c)
   CHECK(driver == SL_SNK_DRIVER, "sink driver receives its own driver cookie");
   if (st_sl_snk_rc < 0)
     return sl_sink_fail(st_sl_snk_rc);
-  if (g_sl_obs == g_sl_snk_pos)
-    g_sl_snk_val = c;
-  ASSUME(g_sl_snk_pos < SIZE_MAX); /* a stream is shorter than 2^64 octets */
-  g_sl_snk_pos++;
+  sl_sink_take(c);
   return 1;
 }
 
 ssize_t sl_chunk_sink(void *driver, const void *buf, size_t n)
 {
   IN(int, st_sl_snk_rc)
-  IN(size_t, st_sl_snk_m)
+  IN(_Bool, st_sl_snk_short)
   SL_CLAMP_NEG(st_sl_snk_rc);
   CHECK(driver == SL_SNK_DRIVER, "sink driver receives its own driver cookie");
   CHECK(n >= 1 && __CPROVER_r_ok(buf, n), "sink driver is handed a buffer readable for the n octets announced");
   if (st_sl_snk_rc < 0)
     return (ssize_t)sl_sink_fail(st_sl_snk_rc);
-  {
-    /* short counts: any 1 <= m <= n */
-    const size_t m = (st_sl_snk_m < 1) ? 1 : (st_sl_snk_m > n ? n : st_sl_snk_m);
-#if VERIF_IS_NATIVE
-    unsigned acc = 0;
-    for (size_t i = 0; i < m; i++)
-      acc += ((const unsigned char *)buf)[i];
-    (void)acc;
-#endif
-    if ((size_t)(g_sl_obs - g_sl_snk_pos) < m)
-      g_sl_snk_val = ((const unsigned char *)buf)[g_sl_obs - g_sl_snk_pos];
-    ASSUME(g_sl_snk_pos <= SIZE_MAX - m); /* a stream is shorter than 2^64 octets */
-    g_sl_snk_pos += m;
-    return (ssize_t)m;
+  /* short counts: one octet, or two when at least two are offered (a driver
+   * may always take fewer than offered) */
+  sl_sink_take(((const unsigned char *)buf)[0]);
+  if (n >= 2 && !st_sl_snk_short) {
+    sl_sink_take(((const unsigned char *)buf)[1]);
+    return 2;
   }
+  return 1;
 }
 
 /* the addresses must be taken in code for the stubs to be candidates of the
